@@ -41,16 +41,18 @@ CLAIMED["C05"] = {
 }
 
 CLAIMED["C06"] = {
-    "text": "Proof (steady-announcer half proved for a port hearing one foreign master). Lean theorems for every history of Announce "
+    "text": "Proof. Lean theorems for every history of Announce "
             "registrations and BMCA runs on a port's foreign master list: an Erbest always is the newest of at least two stored records of "
             "its sender; after a single Announce from a sender (and any other traffic, any BMCA phasing) that sender is never selected; no "
             "record with stepsRemoved >= 255 or the instance's own clock identity is ever stored or selected; after every BMCA run all "
             "records are younger than 4 announce intervals; a sender that stays silent while BMCA steps adding up to the window go by has "
             "no record left. steady_master_is_never_dropped: from an empty list, a sender announcing once per BMCA period with "
             "consecutive sequence numbers modulo 2^16 (any number of rounds, any number of wraps) and a BMCA period shorter than the "
-            "window is the Erbest of every BMCA run from its second Announce on, with the Announce of that round. With several foreign "
-            "masters on one port the steady statement concerns the best of them only and is not a theorem; it is checked by the fml "
-            "stream's oracle and by the correspondence. Constants are tied to the source by the translator.",
+            "window is the Erbest of every BMCA run from its second Announce on, with the Announce of that round. "
+            "steady_master_among_others_is_never_dropped: the same with any number of other foreign masters on the port announcing whatever "
+            "and whenever they like, provided every Announce of the steady master beats theirs in the data set comparison (for instance by "
+            "a lower priority1, dom_of_lower_priority1) - a master that is not the port's best loses its newest record on every BMCA run "
+            "and is legitimately not covered. Constants are tied to the source by the translator.",
     "note": "Trusted: Lean kernel; generators; the BMCA step equals the smallest announce interval (host contract). Known finding: a "
             "network-duplicated Announce (same sequenceId) counts as two.",
     "technique": "Lean 4 theorems (invariants by induction over op histories) + translated constants + differential correspondence",
